@@ -2,6 +2,7 @@
 specification against the declarative property, (2) conformance of the real
 code with the specification (recorded traces judged by TLC and/or TLC-generated
 behaviours replayed on the code)."""
+import re
 from concurrent.futures import ThreadPoolExecutor
 
 from . import runner
@@ -38,10 +39,164 @@ def mc_intlane(ctx, invs):
 def mc_avel(ctx):
     """the composed abstract machine (spec/Avel.tla): frame conditions, environment, masks as booleans"""
     depth = 5 if ctx.tier == 'thorough' else 4
-    ctx.mc('Avel', mc_cfg(['N = 2', 'LaneDom = {0, 1, 255}', 'VRegs = {"v0", "v1"}', 'KRegs = {"k0", "k1"}', 'MemSize = 2',
+    ctx.mc('Avel', mc_cfg(['N = 2', 'W = 1', 'Kind = "u"', 'LaneDom = {0, 1, 255}', 'VRegs = {"v0", "v1"}', 'KRegs = {"k0", "k1"}', 'MemSize = 2',
                            'MaxDepth = %d' % depth],
                           ['TypeOK', 'Frame', 'EnvOnlyBySetEnv', 'MaskIsBooleans'], constraint='Bounded', view='View'),
            'avel', workers=8)
+
+
+def prog_cfg(unit):
+    """TLC constants of one register-program trace: the unit is the vector type, e.g. 16x8u"""
+    m = re.match(r'(\d+)x(\d+)([ui])$', unit)
+    n, w, k = int(m.group(1)), int(m.group(2)) // 8, m.group(3)
+    return ('SPECIFICATION TraceSpec\nCONSTANTS N = %d\n  W = %d\n  Kind = "%s"\n  LaneDom = {0}\n'
+            '  VRegs = {"v0", "v1", "v2", "v3"}\n  KRegs = {"k0", "k1", "k2"}\n  MemSize = %d\n  MaxDepth = 0\n'
+            'INVARIANTS TypeOK Frame EnvOnlyBySetEnv MaskIsBooleans\nCHECK_DEADLOCK FALSE\n') % (n, w, k, 3 * n * w)
+
+
+def prog_traces(ctx):
+    """code -> TLC for the composed machine: register programs over live vectors, masks, memory and the rounding
+    mode (harness/drv_prog.cpp) replayed as behaviours of spec/Avel.tla by spec/TraceAvel.tla"""
+    n = runner.ordered_traces(ctx, 'drv_prog.cpp', 'prog', INT_GROUPS, 'TraceAvel', '.prog', cfg_for=prog_cfg)
+    ctx.notes.append('composed machine (Avel.tla / TraceAvel.tla): %d distinct register-program traces validated' % n)
+
+
+def gen_avel_replay(ctx):
+    """TLC -> code for the composed machine: TLC (-simulate) writes random behaviours of spec/Avel.tla through
+    spec/Gen_Avel.tla, one set per vector type (N, W, Kind); harness/drv_prog.cpp (family "replay") steps the real
+    vectors, masks, byte arena and rounding mode through them; after every step the observed destination must be
+    the post-state TLC computed."""
+    import json
+    import os
+    import subprocess
+    from . import build, tlc, facts
+    num, depth = (12, 250) if ctx.tier == 'thorough' else (3, 120)
+    sdir = os.path.join(ctx.scratch, 'scripts')
+    os.makedirs(sdir, exist_ok=True)
+    types = []
+    for bits in (8, 16, 32, 64):
+        for k in 'ui':
+            for n in sorted(set([1, 128 // bits, 256 // bits, 512 // bits])):
+                types.append((n, bits // 8, k, '%dx%d%s' % (n, bits, k)))
+
+    def gen(t):
+        n, w, k, name = t
+        cfg = ('SPECIFICATION GenSpec\nCONSTANTS N = %d\n  W = %d\n  Kind = "%s"\n  LaneDom = {0}\n'
+               '  VRegs = {"v0", "v1", "v2", "v3"}\n  KRegs = {"k0", "k1", "k2"}\n  MemSize = %d\n  MaxDepth = 0\n'
+               'INVARIANTS TypeOK Frame EnvOnlyBySetEnv MaskIsBooleans\nACTION_CONSTRAINT Emit\nCHECK_DEADLOCK FALSE\n') % (n, w, k, 3 * n * w)
+        cfgp = os.path.join(ctx.scratch, 'gen_%s.cfg' % name)
+        with open(cfgp, 'w') as f:
+            f.write(cfg)
+        md = os.path.join(ctx.scratch, 'md_gen_' + name)
+        cmd = tlc._java('2g', tmpdir=os.path.join(ctx.scratch, 'jtmp')) + ['-workers', '1', '-noGenerateSpecTE', '-simulate', 'num=%d' % num,
+               '-depth', str(depth), '-seed', str(ctx.seed + 17 * n + w), '-metadir', md, '-config', cfgp, 'Gen_Avel.tla']
+        p = subprocess.run(cmd, cwd=tlc.SPEC, stdout=subprocess.PIPE, stderr=subprocess.STDOUT, universal_newlines=True, timeout=1200)
+        steps = []
+        for ln in p.stdout.split('\n'):
+            if ln.startswith('"{'):
+                steps.append(json.loads(json.loads(ln)))
+        if not steps or 'rror' in p.stdout.replace('CHECK_DEADLOCK', ''):
+            if not steps or 'Error' in p.stdout:
+                raise tlc.TLCError('Gen_Avel produced no behaviours for %s:\n%s' % (name, p.stdout[-2000:]))
+        # script for the replayer
+        out = []
+        prev = 0
+        for st in steps:
+            if st['lvl'] <= prev:
+                out.append('reset')
+            prev = st['lvl']
+            fam, op, dst, a = st['fam'], st['op'], st['dst'], st['args']
+            sp = lambda xs: ' '.join(str(x) for x in xs)
+            if fam == 'setvec':
+                line, exp = 'setvec %s %s' % (dst, sp(st['V'][dst])), st['V'][dst]
+            elif fam == 'kset':
+                line, exp = 'kset %s %s' % (dst, sp(st['K'][dst])), st['K'][dst]
+            elif fam in ('bin', 'shiftv'):
+                line, exp = '%s %s %s %s %s' % (fam, op, dst, a[0], a[1]), st['V'][dst]
+            elif fam == 'un':
+                line, exp = 'un %s %s %s' % (op, dst, a[0]), st['V'][dst]
+            elif fam == 'shift':
+                amt = sum(b << (8 * i) for i, b in enumerate(a[1]))
+                line, exp = 'shift %s %s %s %d' % (op, dst, a[0], amt), st['V'][dst]
+            elif fam in ('cmp', 'kbin'):
+                line, exp = '%s %s %s %s %s' % (fam, op, dst, a[0], a[1]), st['K'][dst]
+            elif fam == 'knot':
+                line, exp = 'knot %s %s' % (dst, a[0]), st['K'][dst]
+            elif fam == 'kins':
+                line, exp = 'kins %s %s %d %d' % (dst, a[0], a[1], a[2]), st['K'][dst]
+            elif fam == 'blend':
+                line, exp = 'blend %s %s %s %s' % (dst, a[0], a[1], a[2]), st['V'][dst]
+            elif fam in ('keep', 'clear', 'negate'):
+                line, exp = '%s %s %s %s' % (fam, dst, a[0], a[1]), st['V'][dst]
+            elif fam in ('set_bits', 'b2v'):
+                line, exp = '%s %s %s' % (fam, dst, a[0]), st['V'][dst]
+            elif fam == 'nz':
+                line, exp = 'nz %s %s' % (dst, a[0]), st['K'][dst]
+            elif fam == 'insert':
+                line, exp = 'insert %s %s %d %s' % (dst, a[0], a[1], sp(a[2])), st['V'][dst]
+            elif fam == 'load':
+                line, exp = 'load %s %d %d' % (dst, a[0], a[1]), st['V'][dst]
+            elif fam == 'store':
+                line, exp = 'store %s %d %d' % (a[0], dst[0], dst[1]), st['mem']
+            elif fam == 'setenv':
+                line, exp = 'setenv %s' % a[0], []
+            else:
+                raise tlc.TLCError('Gen_Avel: unknown action family %r' % fam)
+            out.append(line + ' = ' + sp(exp))
+        with open(os.path.join(sdir, name + '.script'), 'w') as f:
+            f.write('\n'.join(out) + '\n')
+        return name, steps
+
+    ctx.log('Gen_Avel: TLC generates behaviours for %d vector types ...' % len(types))
+    with ThreadPoolExecutor(max_workers=16) as ex:
+        expected = dict(ex.map(gen, types))
+    nsteps = sum(len(v) for v in expected.values())
+    ctx.ev['mc_runs'].append({'module': 'Gen_Avel', 'tag': 'simulate num=%d depth=%d x %d types' % (num, depth, len(types)),
+                              'distinct_states': nsteps, 'states_generated': nsteps, 'edges_for_replay': nsteps})
+    ctx.ev['states'] += nsteps
+    ctx.ev['transitions'] += nsteps
+    jobs = [('%s/%s' % (c.name, g), c, 'drv_prog.cpp', ['VH_GROUP=%s' % g]) for c in ctx.cfgs for g in INT_GROUPS]
+    exes = build.build_many(jobs)
+    facts.RUN_ENV = dict(os.environ, VH_SCRIPT_DIR=sdir)
+    try:
+        rjobs = [(tag, exe, ['replay', ctx.tier, str(ctx.seed)], os.path.join(ctx.scratch, 'rp_' + tag.replace('/', '_'))) for tag, exe in exes.items()]
+        facts.run_drivers(rjobs)
+    finally:
+        facts.RUN_ENV = None
+    replayed = 0
+    for tag, exe, args, pre in rjobs:
+        for name, steps in expected.items():
+            path = '%s.%s.replay' % (pre, name)
+            if not os.path.exists(path):
+                continue            # this configuration does not have the type
+            with open(path) as f:
+                evs = [json.loads(l) for l in f if l.strip() and '"reset"' not in l]
+            if len(evs) != len(steps):
+                raise facts.DriverError('replay of %s in %s: %d events for %d steps' % (name, tag, len(evs), len(steps)))
+            bad = 0
+            for i, (st, e) in enumerate(zip(steps, evs)):
+                fam, dst = st['fam'], st['dst']
+                if fam == 'store':
+                    ok = e.get('mem') == st['mem']
+                elif fam == 'setenv':
+                    ok = True
+                elif dst in st['V']:
+                    ok = e.get('r') == st['V'][dst]
+                else:
+                    ok = e.get('m') == st['K'][dst] and e.get('count') == sum(st['K'][dst])
+                ok = ok and e.get('sig') == 'none' and e.get('rm') == st['env']
+                replayed += 1
+                if not ok:
+                    bad += 1
+                    if bad <= 3:
+                        ev = dict(e)
+                        ev.update({'o': st['op'], 'k': 'g', 'step': i + 1, 'spec_post': st['mem'] if fam == 'store' else (st['V'].get(dst) or st['K'].get(dst)),
+                                   'spec_env': st['env'], 'args': st['args']})
+                        ctx.classify(ev, [(tag, '%s:%d:replay_%s' % (name, i + 1, fam))])
+            if not bad:
+                ctx.ev['traces_validated_against_impl'] += 1
+    ctx.ev['tlc_behaviour_steps_replayed_on_code'] = ctx.ev.get('tlc_behaviour_steps_replayed_on_code', 0) + replayed
+    ctx.log('Gen_Avel: %d steps of TLC-generated behaviours replayed on the real vector / mask types' % replayed)
 
 
 def _with_mc(ctx, mcfn, conf):
@@ -122,6 +277,8 @@ def c07(ctx):
             ctx.assumptions.append('thorough: all 2^32 operand pairs of the 16-bit types swept natively against the C++ operators in every configuration; disagreements (and only those) are judged by TLC')
             runner.lane_facts(ctx, 'drv_int.cpp', 'sweep16_select', [16])
         runner.lane_facts(ctx, 'drv_fp.cpp', 'fselect', [32, 64])
+        prog_traces(ctx)
+        gen_avel_replay(ctx)
     _with_mc(ctx, lambda: (mc_intlane(ctx, ['C07']), mc_avel(ctx)), conf)
 
 
@@ -205,6 +362,8 @@ def c03(ctx):
         runner.lane_facts(ctx, 'drv_int.cpp', 'tomask', INT_GROUPS)       # mask(vector): lane != 0
         runner.lane_facts(ctx, 'drv_fp.cpp', 'fmask', FP_GROUPS)          # float: compares unequal to zero; Vector(mask) = 1.0 / 0.0
         runner.ordered_traces(ctx, 'drv_mask.cpp', 'maskrm', ALL_GROUPS, 'TraceMask', '.rm')
+        prog_traces(ctx)          # masks produced by comparisons / conversions and consumed by blend, keep, negate, count ...
+        gen_avel_replay(ctx)
         replay_mask_graphs(ctx)
     _with_mc(ctx, mc, conf)
 
@@ -234,7 +393,7 @@ MEM_ASSUME = [
 def c08(ctx):
     ctx.assumptions += LANE_ASSUME[2:] + MEM_ASSUME
     _with_mc(ctx, lambda: (mc_mem(ctx), mc_avel(ctx)),
-             lambda: runner.lane_facts(ctx, 'drv_mem.cpp', 'mem', ALL_GROUPS, env_extra={'MEMMODE': 'values'}))
+             lambda: (runner.lane_facts(ctx, 'drv_mem.cpp', 'mem', ALL_GROUPS, env_extra={'MEMMODE': 'values'}), prog_traces(ctx), gen_avel_replay(ctx)))
 
 
 def c09(ctx):
@@ -643,7 +802,7 @@ def warm(args=None):
     jobs = []
     for c in q:
         for g in INT_GROUPS:
-            for src in ('drv_int.cpp', 'drv_mask.cpp', 'drv_mem.cpp', 'drv_denom.cpp', 'drv_conv.cpp'):
+            for src in ('drv_int.cpp', 'drv_mask.cpp', 'drv_mem.cpp', 'drv_denom.cpp', 'drv_conv.cpp', 'drv_prog.cpp'):
                 jobs.append(('%s/%s/%s' % (src, c.name, g), c, src, ['VH_GROUP=%s' % g]))
         for g in FP_GROUPS:
             jobs.append(('drv_fp/%s/%s' % (c.name, g), c, 'drv_fp.cpp', ['VH_GROUP=%s' % g]))
